@@ -1,16 +1,20 @@
 """C17 — local token authentication: token always advertised, only it is accepted."""
 from vlib import Rng
 
-RULE = ("family lauth: histories construct / setData / setHeaderName / process / destroy (0-4 updates, several instances in succession), "
+RULE = ("family lauth: histories construct / setData (string, integer, boolean and null values; the same keys again with values that compare equal under QVariant's converting comparison but are written differently) / setHeaderName / process / destroy (0-4 updates, several instances in succession), "
         "umasks {000,022,027,077}, pre-existing permissive file; after EVERY call the file's existence, mode and JSON members are observed; "
         "process() with the token, case/brace/prefix/space variants, empty, missing, an earlier instance's token, under the right and "
         "wrong header names; lauth_unique: N successive instances, distinct tokens counted; non-trivial = distinct case")
 ASSUMPTIONS = ["one live instance per application name at a time", "token uniqueness is randomness of QUuid: observed only (labelled partial)",
-               "data values are strings (QJsonDocument rendering of other variants is not modelled)"]
+               "data values are strings, integers, booleans or null (nested maps and lists are not generated)"]
 TRUSTED = ["HOME is redirected to a scratch directory; QJsonDocument parses the file for the observation"]
 
 KEYS = [b"port", b"name", b"token", b"a", b"zz", b"Token"]
-VALS = [b"8080", b"x", b"", b"v w", b"<b>"]
+VALS = [b"8080", b"x", b"", b"v w", b"<b>", b"\x01i8080", b"\x01i1", b"\x01i0", b"\x01b1", b"\x01b0", b"1", b"0", b"true", b"false", b"\x01n"]
+# values that Qt's converting QVariant comparison calls equal although they are written to the file differently
+LOOSE = {b"8080": [b"\x01i8080"], b"\x01i8080": [b"8080"], b"\x01i1": [b"1", b"\x01b1", b"true"], b"\x01b1": [b"\x01i1", b"1", b"true"],
+         b"1": [b"\x01i1", b"\x01b1"], b"true": [b"\x01b1"], b"\x01i0": [b"0", b"\x01b0"], b"\x01b0": [b"\x01i0", b"0", b"false"], b"0": [b"\x01i0", b"\x01b0"],
+         b"false": [b"\x01b0"], b"": [b"\x01n"], b"\x01n": [b""]}
 HNAMES = [b"X-Auth-Token", b"x-auth-token", b"X-Other", b"Authorization"]
 HVALS = [b"<TOKEN>", b" <TOKEN> ", b"<TOKEN:upper>", b"<TOKEN:nobrace>", b"<TOKEN:prefix>", b"", b"<PREV>", b"<TOKEN>x", b"{}", b"x",
          b"<TOKEN:cyc256>", b"<TOKEN:cyc512>", b"<TOKEN:cyc255>", b"<TOKEN:cyc38>", b"<TOKEN>" + b"j" * 256]
@@ -27,7 +31,10 @@ def cases(tier, seed, ctx=None):
             for _ in range(rng.range(0, 4)):
                 k = rng.below(3)
                 if k == 0:
-                    ops.append([1, [[rng.choice(KEYS), rng.choice(VALS)] for _ in range(rng.range(0, 3))]])
+                    d = [[rng.choice(KEYS), rng.choice(VALS)] for _ in range(rng.range(0, 3))]
+                    ops.append([1, d])
+                    if d and rng.chance(1, 2):     # the same keys again, values changed to ones that merely compare equal
+                        ops.append([1, [[kk, rng.choice(LOOSE.get(vv, [vv]))] for kk, vv in d]])
                 elif k == 1:
                     ops.append([2, rng.choice(HNAMES)])
                 else:
